@@ -72,8 +72,11 @@ def project_upgrade(label):
         m = re.search(r'/\\ ' + name + r' = ("?)([^ "/]*)\1', label)
         return m.group(2) if m else ""
     pc = rec_of(label, "pc")
+    sent = rec_of(label, "sent")
     return {"upgrading": v("upgrading") == "TRUE", "upgraded": v("upgraded") == "TRUE", "tr": "polling" if v("cur") == "p" else "stream",
-            "nswitch": int(v("nswitch") or 0), "closed": {k: x in ("refused", "closed", "failed") for k, x in pc.items() if x != "none"}}
+            "nswitch": int(v("nswitch") or 0), "closed": {k: x in ("refused", "closed", "failed") for k, x in pc.items() if x != "none"},
+            "probed": {k: sent.get(k) == "read" for k, x in pc.items() if x != "none"},
+            "settled": not any(pc[k] == "attached" and sent.get(k) == "probe" for k in pc)}
 
 # ---- HttpCtx.tla
 def project_httpctx(label):
@@ -134,6 +137,9 @@ def main():
         if httpctx:
             # the watcher goroutine cannot be held: an operation taken while it has something to do is not replayable
             return not proj[a]["settled"] and x is not None and x["a"] != "watch"
+        if len(sys.argv) > 5 and sys.argv[5] == "upgrade":
+            # nor can a transport's reader: with a probe to read and a listener to answer it, the answer comes first
+            return not proj[a]["settled"] and x is not None and x["a"] != "probe"
         if registry:
             return False
         return proj[a]["_inclose"] and x is not None and (x["a"] in ("poll.overlap", "poll.abort", "peerclose", "post.overlap", "post.abort")
